@@ -4,7 +4,7 @@ import numpy as np
 import impl, gen, oracle
 from impl import quiet, SemanticPair, ConnectedComponentsInstanceApproximator, CCABackend
 
-RULE = ("half of the cases through long-lived approximator objects shared across inputs of different dimensionality; pairs with the same foreground divided into different semantic labels; 1-D/2-D/3-D semantic maps built from objects with 1-3 semantic labels (incl. labels >= 256 and 65536), diagonal "
+RULE = ("backend given as enum member or by member name (incl. requests that differ from the dimensionality default); int64 maps using the largest int64 value as a label next to multiples of 256; half of the cases through long-lived approximator objects shared across inputs of different dimensionality; pairs with the same foreground divided into different semantic labels; 1-D/2-D/3-D semantic maps built from objects with 1-3 semantic labels (incl. labels >= 256 and 65536), diagonal "
         "(edge/corner) contacts and multi-label adjacency, dtypes {uint8,uint16,int32,int64}, negatives (must be rejected) x "
         "backend {default, cc3d, scipy}; exhaustive {0,1,2}-maps of shape 2x3 (quick) / 3x3, 2x2x2 (thorough); "
         "non-trivial = face and full connectivity, or label-aware and label-blind reading, give different partitions")
@@ -14,13 +14,14 @@ _SHARED = {}
 _HIST = []
 
 
-def approx(pred, ref, backend, shared=False):
+def approx(pred, ref, backend, shared=False, form="enum"):
     """`shared`: reuse one long-lived approximator object per backend setting across inputs of different
     dimensionality (an approximator must not remember anything from earlier calls)"""
+    be = backend if (form == "name" and backend is not None) else impl.BACKEND[backend]     # by member name or as enum member
     if shared:
-        ap = _SHARED.setdefault(backend, ConnectedComponentsInstanceApproximator(cca_backend=impl.BACKEND[backend]))
+        ap = _SHARED.setdefault((backend, form), ConnectedComponentsInstanceApproximator(cca_backend=be))
     else:
-        ap = ConnectedComponentsInstanceApproximator(cca_backend=impl.BACKEND[backend])
+        ap = ConnectedComponentsInstanceApproximator(cca_backend=be)
     with quiet():
         return ap.approximate_instances(SemanticPair(pred, ref))
 
@@ -47,9 +48,9 @@ def check_side(arr, out, n_reported, backend_eff):
     return f, comps
 
 
-def one_case(ctx, pred, ref, backend, src, shared=False):
+def one_case(ctx, pred, ref, backend, src, shared=False, form="enum"):
     inp = {"shape": list(pred.shape), "dtype": str(pred.dtype), "pred": gen.arr_json(pred.astype(np.int64)),
-           "ref": gen.arr_json(ref.astype(np.int64)), "backend": backend, "src": src, "shared_approximator": shared,
+           "ref": gen.arr_json(ref.astype(np.int64)), "backend": backend, "backend_form": form, "src": src, "shared_approximator": shared,
            "history": list(_HIST[-3:]) if shared else []}
     if shared:
         _HIST.append([list(pred.shape), backend])
@@ -57,7 +58,9 @@ def one_case(ctx, pred, ref, backend, src, shared=False):
     eff = backend or ("cc3d" if pred.ndim >= 3 else "scipy")
     neg = (pred < 0).any() or (ref < 0).any()
     try:
-        up = approx(pred, ref, backend, shared)
+        up = approx(pred, ref, backend, shared, form)
+        if form == "name":
+            ctx.count("backend_given_by_name")
     except AssertionError:
         ctx.case(inp, False)
         ctx.count("rejected_negative" if neg else "rejected_other")
@@ -128,7 +131,8 @@ def run_cases(ctx, n, tag):
             ref = np.zeros_like(pred)
             ref[fg] = [rng.choice([1, 2, 3]) for _ in range(int(fg.sum()))]
             ctx.count("same_foreground_different_labels")
-        one_case(ctx, pred, ref, backend, f"{tag}{i}", shared=rng.random() < 0.5)
+        one_case(ctx, pred, ref, backend, f"{tag}{i}", shared=rng.random() < 0.5,
+                 form="name" if backend is not None and rng.random() < 0.35 else "enum")
 
 
 def exhaustive(ctx, shape):
@@ -143,7 +147,25 @@ def exhaustive(ctx, shape):
     ctx.extra["exhaustive_space"] = f"all {{0,1,2}}-maps of shape {shape} x 3 backends ({n} cases)"
 
 
+def sentinel_cases(ctx):
+    """signed 64-bit maps that use the largest representable value as a label (an ignore / void marker) next to
+    ordinary labels that are multiples of 256 or congruent to it modulo 256"""
+    top = int(np.iinfo(np.int64).max)
+    for shape in ((1, 9), (3, 4), (2, 3, 3)):
+        for labs in ((top, 256), (top, 511, 512), (top, 255), (2 ** 32 - 1, 256, 2 ** 32)):
+            a = np.zeros(shape, np.int64)
+            b = np.zeros(shape, np.int64)
+            fa, fb = a.reshape(-1), b.reshape(-1)
+            for k in range(fa.size):
+                fa[k] = labs[k % len(labs)] if k % 4 != 3 else 0
+                fb[k] = labs[(k // 2) % len(labs)] if k % 5 != 4 else 0
+            for backend in (None, "cc3d", "scipy"):
+                ctx.count("largest_int64_label")
+                one_case(ctx, a, b, backend, "corpus.sentinel")
+
+
 def corpus(ctx):
+    sentinel_cases(ctx)
     a = np.zeros((3, 3, 3), np.uint8)
     a[0, 0, 0] = 1
     a[1, 1, 1] = 1      # corner contact
@@ -192,4 +214,5 @@ def search(ctx):
 def replay(ctx, rec):
     i = rec["input"]
     dt = np.dtype(i["dtype"])
-    one_case(ctx, np.array(i["pred"]).reshape(i["shape"]).astype(dt), np.array(i["ref"]).reshape(i["shape"]).astype(dt), i["backend"], "replay")
+    one_case(ctx, np.array(i["pred"]).reshape(i["shape"]).astype(dt), np.array(i["ref"]).reshape(i["shape"]).astype(dt), i["backend"], "replay",
+             form=i.get("backend_form", "enum"))
